@@ -509,9 +509,10 @@ func checkC07(c *Ctx) {
 	ruleEscSet(c, r.h)
 	ruleVocab(c, r.h)
 	ruleCharRefAlphabet(c)
+	ruleWalkWiring(c)
 	c.Assume("html.EscapeString and the copy arithmetic of escapeHTML are trusted as sanitisers")
 	c.Assume("HTX-RAW (b),(c): the parser restricts the content of CharacterReference spans (recognised references only; see C15 isHex) and SoftLineBreak spans (line-ending bytes)")
-	c.Assume("post callbacks run iff the pre callback descended (C18 W-rules), so start and end tags pair up at run time")
+	c.Assume("Walk runs Post for a node iff Pre returned true for it (C18 W-rules); that the renderer's callbacks return exactly their emitters' verdicts is WALK-WIRING")
 	c.MinCount("HTX", 20)
 }
 
@@ -539,6 +540,17 @@ func init() {
 			Old: "\t\t\t\tr.dst = append(r.dst, `\"`...)\n\t\t\t}\n\t\t}\n\t\tr.dst = append(r.dst, \">\"...)\n\tcase BlockQuoteKind:", New: "\t\t\t\tr.dst = append(r.dst, `\"`...)\n\t\t\t\tr.dst = append(r.dst, \">\"...)\n\t\t\t}\n\t\t}\n\tcase BlockQuoteKind:", Expect: "HTX-L"},
 		Control{Name: "entity-scan-stops-only-at-space", Props: []string{"C07"}, File: "inlines.go",
 			Old: "\t\t\tcase !isASCIILetter(c) && !isASCIIDigit(c):\n\t\t\t\treturn -1\n\t\t\t}\n\t\t}\n\t\treturn -1\n\t}\n\n\tif text[2] == 'x'", New: "\t\t\tcase c == ' ' || c == '&':\n\t\t\t\treturn -1\n\t\t\t}\n\t\t}\n\t\treturn -1\n\t}\n\n\tif text[2] == 'x'", Expect: "CHARREF-ALPHABET"},
+		Control{Name: "render-budget-refuses-descent-after-open", Props: []string{"C07", "C10"}, File: "html_renderer.go",
+			Old: "\t\t\tif b := c.Node().Block(); b != nil {\n\t\t\t\treturn state.preBlock(block.Source, c)\n\t\t\t}",
+			New: "\t\t\tif b := c.Node().Block(); b != nil {\n\t\t\t\treturn state.preBlock(block.Source, c) && len(state.dst) < 1<<20\n\t\t\t}",
+			Expect: "WALK-WIRING/(*HTMLRenderer).AppendBlock:Pre:returns", Why: "Pre refuses descent after preBlock opened the element: no closing tag"},
+		Control{Name: "post-aborts-walk", Props: []string{"C07", "C10"}, File: "html_renderer.go",
+			Old: "\t\t\tif i := c.Node().Inline(); i != nil {\n\t\t\t\treturn state.postInline(block.Source, i)\n\t\t\t}\n\t\t\treturn true",
+			New: "\t\t\tif i := c.Node().Inline(); i != nil {\n\t\t\t\treturn state.postInline(block.Source, i)\n\t\t\t}\n\t\t\treturn false",
+			Expect: "WALK-WIRING/(*HTMLRenderer).AppendBlock:Post:returns"},
+		Control{Name: "neg-pre-callback-with-local", Props: []string{"C07", "C10", "C19"}, File: "html_renderer.go", Negative: true,
+			Old: "\t\t\tif b := c.Node().Block(); b != nil {\n\t\t\t\treturn state.preBlock(block.Source, c)\n\t\t\t}\n\t\t\tif i := c.Node().Inline(); i != nil {\n\t\t\t\treturn state.preInline(block.Source, i)\n\t\t\t}\n\t\t\treturn true",
+			New: "\t\t\tdescend := true\n\t\t\tif b := c.Node().Block(); b != nil {\n\t\t\t\tdescend = state.preBlock(block.Source, c)\n\t\t\t} else if i := c.Node().Inline(); i != nil {\n\t\t\t\tdescend = state.preInline(block.Source, i)\n\t\t\t}\n\t\t\treturn descend"},
 		Control{Name: "neg-escapeHTML-without-quot", Props: []string{"C07"}, File: "html_renderer.go", Negative: true,
 			Old: "\t\tcase '\"':\n\t\t\tdst = append(dst, src[verbatimStart:i]...)\n\t\t\tdst = append(dst, \"&quot;\"...)\n\t\t\tverbatimStart = i + 1\n", New: ""},
 		Control{Name: "neg-htmlblock-descends-under-IgnoreRaw", Props: []string{"C07"}, File: "html_renderer.go", Negative: true,
